@@ -583,6 +583,20 @@ func dispatch(op string, a []val) string {
 			}
 		}
 		return xB(keccak256.Hash(data...))
+	case "keccakarena": // arena [o1,l1,o2,l2,...]: slices of ONE backing array (spare capacity behind each)
+		arena := append([]byte(nil), a[0].b...)
+		var data [][]byte
+		for i := 0; i+1 < len(a[1].l); i += 2 {
+			o, l := int(a[1].l[i].Int64()), int(a[1].l[i+1].Int64())
+			data = append(data, arena[o:o+l])
+		}
+		d := keccak256.Hash(data...)
+		return xB(d) + " " + xB(arena)
+	case "blakearena": // arena off len: input is a slice with spare capacity
+		arena := append([]byte(nil), a[0].b...)
+		o, l := int(a[1].i.Int64()), int(a[2].i.Int64())
+		d := babyjub.Blake512(arena[o : o+l])
+		return xB(d) + " " + xB(arena)
 	case "blake":
 		return xB(babyjub.Blake512(a[0].b))
 	case "ff":
